@@ -41,9 +41,14 @@ def params(draw, tier):
                                              n_int_max=8, n_int_min=0, pose=False, labels=False))
         p["fill"] = draw(st.floats(0.5, 0.95))
         p["rescale_split"] = draw(st.sampled_from([1.0, 2.0, 0.37]))
+        # anisotropic placement: own factor and own offset per axis
+        p["rescale_y"] = draw(st.sampled_from([None, None, 1.0, 1.5, 0.6]))
+        p["offset_xy"] = [draw(st.integers(0, 6)) + draw(st.sampled_from([0.0, 0.25, 0.5])),
+                          draw(st.integers(0, 6)) + draw(st.sampled_from([0.0, 0.25, 0.75]))]
     else:
         p["pseed"] = draw(st.integers(0, 2 ** 32 - 1))
         p["npoly"] = draw(st.integers(2, 6))
+        p["omit_placement"] = draw(st.booleans())      # rescale / offset left at their defaults ([1, 1], [0, 0])
     return p
 
 
@@ -89,17 +94,19 @@ def build_edges(p):
         R = realise(t, nint)
         xs = np.array([v.x for v in R.vertices.values()])
         ys = np.array([v.y for v in R.vertices.values()])
-        sx = (W - 2 * m) * p["fill"] / max(xs.max() - xs.min(), 1e-9)
-        sy = (H - 2 * m) * p["fill"] / max(ys.max() - ys.min(), 1e-9)
+        off = p.get("offset_xy") or [0.0, 0.25]
+        sx = (W - 2 * m - 7) * p["fill"] / max(xs.max() - xs.min(), 1e-9)
+        sy = (H - 2 * m - 7) * p["fill"] / max(ys.max() - ys.min(), 1e-9)
         s = min(sx, sy)
         # split the placement between the mesh coordinates and rescale/offset
         pre = p["rescale_split"]
+        pre_y = p.get("rescale_y") or pre
         for v in R.vertices.values():
             v.x = (v.x - xs.min()) * s / pre
-            v.y = (v.y - ys.min()) * s / pre
+            v.y = (v.y - ys.min()) * s / pre_y
         frame = make_frame(R)
         edges = list(frame.internal_big_edges)
-        return edges, [pre, pre], [float(m), float(m) + 0.25]
+        return edges, [pre, pre_y], [float(m) + off[0], float(m) + off[1]]
     rng = PRNG(p["pseed"])
     edges = []
     vid = 0
@@ -177,6 +184,9 @@ def check_case(p, ctx):
         ctx.count("class:repeated-interface")
     img, arr = make_image(p)
     kw = dict(rescale=rescale, offset=offset)
+    if p.get("omit_placement") and rescale == [1, 1] and offset == [0, 0]:
+        kw = {}
+        ctx.count("placement-arguments-left-at-defaults")
     got = call(fm.get_intensities, edges, img, p["integrate"], p["normalize"], p["layers"], **kw)
     if sorted(got) != list(range(len(edges))):
         return ctx.violation("result-keys", p, observed=sorted(got)[:10], expected=f"0..{len(edges) - 1}")
